@@ -111,7 +111,7 @@ def run(rep, tier, seed):
                           {"what": bad, "type": t, "strict_coercion": sc, "datum": v,
                            "DISABLE": outs[0], "FIRST": outs[1], "ALL": outs[2]})
     n_dump = dump_modes_oracle(rep, r, tier)
-    n_model = model_load_modes_oracle(rep, r, tier)
+    n_model = model_load_modes_oracle(rep, r, tier) + user_exn_model_oracle(rep, r, tier)
     header = lg.SHOW_HEADER + ("Definition run (c : nat * bool * ty * pv) : string := "
                                "match c with (m, sc, t, v) => show_res (load BOOM (md_of m) sc t v) end.\n")
     ce = CoqEval(PID, header, "run", shard=500)
@@ -355,6 +355,91 @@ def model_load_modes_oracle(rep, r, tier):
                         rep.violation(f"model-modes:{bad}:{cname}:{cls.__name__}", "property-violated",
                                       {"what": f"loading a model: {bad}", "model": cls.__name__, "name_mapping": cname, "strict_coercion": sc,
                                        "datum": repr(d), "DISABLE": repr(outs[0])[:300], "FIRST": repr(outs[1])[:300], "ALL": repr(outs[2])[:300]})
+    return n
+
+
+def user_exn_model_oracle(rep, r, tier):
+    """user code (a loader given in the recipe) that raises a non-LoadError inside a MODEL that is a union case / optional /
+    container element: the three modes must still agree on whether loading succeeds.  The generator labels each case by
+    the kind of the first failing field in field order ('exn' = the user loader raised ValueError, 'le' = a LoadError)."""
+    from dataclasses import dataclass
+    from typing import Dict, List, Optional, Union
+
+    from adaptix import DebugTrail, Retort, loader
+    from adaptix.load_error import ValueLoadError
+
+    class W:
+        def __init__(self, v):
+            self.v = v
+
+        def __eq__(self, o):
+            return isinstance(o, W) and o.v == self.v
+
+        def __repr__(self):
+            return f"W({self.v!r})"
+
+    def load_w(d):
+        if d == "boom":
+            raise ValueError("boom")
+        if d == "bad":
+            raise ValueLoadError("bad", d)
+        return W(d)
+
+    @dataclass
+    class A:
+        a: W
+
+    @dataclass
+    class B:
+        a: str
+
+    @dataclass
+    class C:
+        x: W
+        y: W
+        a: str = "dflt"
+
+    @dataclass
+    class N:
+        inner: A
+        a: str = "n"
+
+    rts = [Retort(recipe=[loader(W, load_w)], debug_trail=getattr(DebugTrail, m)) for m in MODES]
+    vals = ["boom", "bad", "fine"]
+    cases = []      # (label, type, datum, first_bad)
+    for v in vals:
+        fb = {"boom": "exn", "bad": "le", "fine": "none"}[v]
+        d = {"a": v}
+        cases += [("Union[A,B]", Union[A, B], d, fb), ("Optional[A]", Optional[A], d, fb), ("A", A, d, fb),
+                  ("List[Union[A,B]]", List[Union[A, B]], [d], fb), ("Dict[str,Union[A,B]]", Dict[str, Union[A, B]], {"k": d}, fb),
+                  ("Union[N,B]", Union[N, B], {"inner": d, "a": "s"}, fb), ("Union[List[A],B]", Union[List[A], B], [d], fb)]
+        for v2 in vals:
+            fb2 = fb if fb != "none" else {"boom": "exn", "bad": "le", "fine": "none"}[v2]
+            d2 = {"x": v, "y": v2, "a": "s"}
+            cases += [("Union[C,B]", Union[C, B], d2, fb2), ("C", C, d2, fb2), ("List[Union[C,B]]", List[Union[C, B]], [d2, d2], fb2)]
+    n = 0
+    reported = set()
+    for label, tp, d, fb in cases:
+        outs = []
+        for rt in rts:
+            n += 1
+            try:
+                outs.append(("ok", rt.load(d, tp)))
+            except Exception as e:  # noqa: BLE001
+                outs.append(("fail", type(e).__name__))
+        kinds = [o[0] for o in outs]
+        bad = None
+        if len(set(kinds)) != 1:
+            bad = "modes disagree on acceptance"
+        elif kinds[0] == "ok" and not (outs[0][1] == outs[1][1] == outs[2][1]):
+            bad = "modes return different values"
+        sig = f"user-exn-model:{fb}-first"
+        if bad and sig not in reported:
+            reported.add(sig)
+            rep.violation(sig, "property-violated",
+                          {"what": f"a user loader raises ValueError('boom') / ValueLoadError('bad') inside a model: {bad}",
+                           "type": label, "datum": repr(d), "first_failing_field": fb,
+                           "DISABLE": repr(outs[0]), "FIRST": repr(outs[1]), "ALL": repr(outs[2])})
     return n
 
 
